@@ -577,7 +577,11 @@ fn run_lattice_case(case_seed: u64, rep: &mut Report, verbose: bool) {
                     judge_position(&mut cx, f(c), rr2 as f64, f(pp_), m, num == 0);
                     pp_
                 } else {
-                    let pp_ = pt(&mut rng);
+                    // (one in three: a point on a diagonal through the centre, the radius the integer next to its distance)
+                    let diag = rng.chance(1, 3);
+                    let t = rng.range_i64(1, 700);
+                    let r = if diag { ((t as f64) * std::f64::consts::SQRT_2).floor() as i64 + rng.range_i64(0, 1) } else { r };
+                    let pp_ = if diag { (c.0 + t * *rng.pick(&[1i64, -1]), c.1 + t * *rng.pick(&[1i64, -1])) } else { pt(&mut rng) };
                     let d2 = (pp_.0 - c.0) as i128 * (pp_.0 - c.0) as i128 + (pp_.1 - c.1) as i128 * (pp_.1 - c.1) as i128;
                     let num = d2 - r as i128 * r as i128;
                     let m = if num == 0 { 0.0 } else { num as f64 / ((d2 as f64).sqrt() + r as f64) };
@@ -692,11 +696,14 @@ fn run_real_case(case_seed: u64, rep: &mut Report, verbose: bool) {
             9 => {
                 cx.family = "real: circles with nearly equal radii, inner tangency and its neighbourhood".into();
                 let r1 = rng.f64_range(50.0, 900.0);
-                let delta = *rng.pick(&[1e-6f64, 1e-5, 1e-4, 5e-4, 1e-3, 2e-3, 1e-2, 0.1]);
+                let delta = *rng.pick(&[1e-6f64, 1e-5, 1e-4, 5e-4, 1e-3, 2e-3, 1e-2, 0.1, 2e-7, 5e-7, 3e-6]);
                 let r2 = r1 - delta;
                 let m = *rng.pick(&[0.0f64, 0.0, 1e-13, -1e-13, 5e-11, -5e-11, 2e-8, -2e-8, 1e-6, -1e-6]);
-                // centres delta + m apart: m = 0 is the inner tangency; centres well away from the origin
-                let d = delta + m;
+                // centres delta + m apart: m = 0 is the inner tangency; centres well away from the origin.
+                // Every other pair crosses properly instead (centres 0.2 .. r1 + r2 - 0.2 apart): two circles that are
+                // equal up to a relative 1e-9 still have two different radii
+                let crossing = rng.chance(1, 2);
+                let d = if crossing { rng.f64_range(0.2, r1 + r2 - 0.2) } else { delta + m };
                 if d <= 0.0 {
                     return;
                 }
@@ -886,7 +893,17 @@ fn run_real_case(case_seed: u64, rep: &mut Report, verbose: bool) {
                 let r = *rng.pick(&[0.01f64, 1.0, 30.0, 450.0]);
                 let m = *rng.pick(&SWEEP) * if rng.chance(1, 2) { r.max(1.0) } else { 1.0 };
                 let c = place(P2 { x: 0.0, y: 0.0 });
-                let th = rng.f64_range(0.0, 6.3);
+                // one direction in three lies on or within a few 1e-6 rad of an axis or a diagonal of the final picture
+                // (a shortcut through the bounding or the inscribed square of the circle has its corners there), with
+                // margins of a few 1e-6 of the radius
+                let special = rng.chance(1, 3);
+                let th = if special {
+                    cx.rep.inc("position_directions_at_axes_and_diagonals");
+                    rng.below(8) as f64 * std::f64::consts::FRAC_PI_4 + *rng.pick(&[0.0f64, 0.0, 1e-6, -1e-6, 2.5e-6, -2.5e-6, 1e-5]) - ang
+                } else {
+                    rng.f64_range(0.0, 6.3)
+                };
+                let m = if special && rng.chance(1, 2) { *rng.pick(&[1e-7f64, 5e-7, 1e-6, 2e-6, 3e-6, 4e-6, 8e-6, -1e-6, -4e-6]) * r } else { m };
                 let p = place(rot(P2 { x: (r + m).max(0.0), y: 0.0 }, th));
                 let actual = (p.x - c.x).hypot(p.y - c.y) - r;
                 judge_position(&mut cx, c, r, p, actual, false);
